@@ -77,6 +77,8 @@ def fields(draw, nind):
             "signed": draw(st.lists(num, min_size=m, max_size=m)) + [draw(st.booleans())],
             "np": draw(st.booleans()),
             "pop": draw(st.integers(-1, 50)),
+            # evaluation status of the design when it is synchronised (a crashed evaluation leaves 'in_progress')
+            "state": draw(st.sampled_from(["EVALUATED", "EVALUATED", "EMPTY", "IN_PROGRESS", "FAILED"])),
             "custom": draw(st.one_of(st.just({}), st.dictionaries(st.text(max_size=5), json_val, max_size=3))),
             "features": feats,
             "parents": draw(st.lists(st.integers(0, max(nind - 1, 0)), max_size=2)),
@@ -108,18 +110,23 @@ def histories(draw):
                                   "view", "inplace", "inplace", "reopen_write", "rewrite"]))
         if o == "rewrite" and (any(x["op"] == "rewrite" for x in ops) or draw(st.integers(0, 2)) > 0):
             o = "view"
+        # the file is locked by somebody else (a monitoring tool, another run) for the first `busy` write attempts of
+        # this synchronisation: SQLite then answers "database is locked" (OperationalError) until the lock is released
+        busy = draw(st.sampled_from([0, 0, 0, 0, 1, 2, 3, 5, 8]))
         if o in ("new", "add_nosync"):
-            ops.append({"op": o, "f": draw(fields(nind))})
+            ops.append({"op": o, "f": draw(fields(nind)), "busy": busy})
             nind += 1
         elif o in ("mutate", "mutate_nosync") and nind:
-            ops.append({"op": o, "i": draw(st.integers(0, nind - 1)), "f": draw(fields(nind))})
+            ops.append({"op": o, "i": draw(st.integers(0, nind - 1)), "f": draw(fields(nind)), "busy": busy})
         elif o == "inplace" and nind:
             # change the *same* objects (dict / list) an earlier synchronisation has seen, then synchronise again
             ops.append({"op": o, "i": draw(st.integers(0, nind - 1)),
                         "what": draw(st.sampled_from(["custom-key", "custom-nested", "signed-item", "vector-item",
                                                       "feature-append", "costs-append"])),
                         "val": draw(st.one_of(st.integers(-9, 9).map(float), st.sampled_from([-0.0, 0.0, 1.5]))),
-                        "sync": draw(st.sampled_from(["individual", "individual", "all"]))})
+                        "sync": draw(st.sampled_from(["individual", "individual", "all"])),
+                        # the design is being re-evaluated (or its evaluation crashed) when the run is saved
+                        "state": draw(st.sampled_from([None, None, "IN_PROGRESS", "EMPTY", "EVALUATED"]))})
         elif o in ("sync_all", "view", "reopen_write", "rewrite"):
             ops.append({"op": o})
             if o == "rewrite":
@@ -174,6 +181,8 @@ def _apply(ind, f, objs):
     ind.costs = [cv(x) for x in f["costs"]]
     ind.costs_signed = [cv(x) for x in f["signed"][:-1]] + [f["signed"][-1]]
     ind.population_id = f["pop"]
+    if f.get("state"):
+        ind.state = getattr(type(ind).State, f["state"])
     ind.custom = json.loads(json.dumps(f["custom"]))   # private copy
     for k, fv in f["features"].items():
         if fv["k"] == "ids":
@@ -237,10 +246,45 @@ def compare_view(clause, db, meta, model, where):
             where, len(rows), len(model), sorted(r[0] for r in rows)))
 
 
+class busy_file:
+    """while active, the first k INSERT statements issued through connections opened by artap fail the way SQLite fails
+    when another connection holds the write lock"""
+
+    def __init__(self, k):
+        self.left = k
+        self.real = sqlite3.connect
+
+    def __enter__(self):
+        outer = self
+
+        class Cur(sqlite3.Cursor):
+            def execute(self, sql, *a):
+                if outer.left > 0 and sql.lstrip().upper().startswith("INSERT"):
+                    outer.left -= 1
+                    raise sqlite3.OperationalError("database is locked")
+                return super().execute(sql, *a)
+
+        class Conn(sqlite3.Connection):
+            def cursor(self, *a, **kw):
+                return super().cursor(Cur)
+
+        def connect(*a, **kw):
+            kw["factory"] = Conn
+            return outer.real(*a, **kw)
+        if self.left:
+            sqlite3.connect = connect
+        return self
+
+    def __exit__(self, *exc):
+        sqlite3.connect = self.real
+        return False
+
+
 def check_history(case):
     from artap.individual import Individual
     from artap.datastore import SqliteDataStore
     meta = case["meta"]
+    ts = case.get("thread_safe", True)
     prob = make_problem(meta["parameters"], meta["costs"], lambda ind: [0.0], name=meta["name"])
     prob.description = meta["description"]
     classes = set()
@@ -264,8 +308,10 @@ def check_history(case):
                 objs.append(ind)
                 prob.individuals.append(ind)
                 if o == "new":
-                    with guard("store"):
+                    with guard("store"), busy_file(op.get("busy", 0) if ts else 0) as bf:
                         prob.data_store.sync_individual(ind)
+                    if op.get("busy") and ts:
+                        classes.add("file-locked-%s" % ("1-2" if op["busy"] < 3 else "3+"))
                     model[ind.id] = snapshot(ind)
             elif o in ("mutate", "mutate_nosync", "inplace") and not objs:
                 continue      # nothing is left to change (everything unsynchronised was dropped by a reopen)
@@ -273,8 +319,10 @@ def check_history(case):
                 ind = objs[op["i"] % len(objs)]
                 _apply(ind, op["f"], objs)
                 if o == "mutate":
-                    with guard("store"):
+                    with guard("store"), busy_file(op.get("busy", 0) if ts else 0) as bf:
                         prob.data_store.sync_individual(ind)
+                    if op.get("busy") and ts:
+                        classes.add("file-locked-%s" % ("1-2" if op["busy"] < 3 else "3+"))
                     new = snapshot(ind)
                     if ind.id in model and not same(model[ind.id], new):
                         resynced = True
@@ -300,6 +348,10 @@ def check_history(case):
                     ind.costs.append(val)
                     ind.costs_signed.insert(-1, val)
                 classes.add("inplace-change")
+                if op.get("state"):
+                    ind.state = getattr(Individual.State, op["state"])
+                    if op["state"] == "IN_PROGRESS" and ind.id in model:
+                        classes.add("stored-design-in-progress")
                 with guard("store"):
                     if op["sync"] == "all":
                         prob.data_store.sync_all()
